@@ -90,6 +90,18 @@ def minimise(mod, modname, sc, res, lanes=16, timeout=120.0, max_exec=300, max_s
         i, r = _try_all(modname, cands, target, lanes, timeout, budget)
         if i is not None:
             sc, res, progress = cands[i], r, True
+        elif sc.get("schedule", {}).get("mode") == "prng" and sc["schedule"].get("preempt_p", 0) > 0 and budget.ok():
+            # a schedule-dependent violation is easily lost when the scenario changes under the same PRNG stream:
+            # retry the most aggressive candidates under a few other schedule seeds
+            re = []
+            for c in cands[:6]:
+                for k in (1, 2, 3):
+                    c2 = dict(c)
+                    c2["schedule"] = dict(c["schedule"], seed=c["schedule"].get("seed", 0) + 7919 * k)
+                    re.append(c2)
+            i, r = _try_all(modname, re, target, lanes, timeout, budget)
+            if i is not None:
+                sc, res, progress = re[i], r, True
     # 2. explicit trace
     if not hasattr(mod, "to_trace_scenario") or sc.get("schedule", {}).get("mode") != "prng":
         return sc, res, budget.used
